@@ -349,7 +349,7 @@ def oracle_c09(sc, res):
                 if allowed <= 0:
                     v.append(dict(kind='dt-without-clearance', t=t, seq=seq))
                     break
-                if nxt is not None and seq != nxt:
+                if nxt is not None and seq != nxt and not sc['plan'].get('cts_skew'):
                     v.append(dict(kind='dt-outside-window', t=t, seq=seq, expected=nxt))
                     break
                 allowed -= 1
